@@ -12,8 +12,10 @@ import (
 
 func init() {
 	register(&Property{
-		ID:  "C13",
-		Gen: genC13,
+		ID:    "C13",
+		Files: []string{"actor.go"},
+		Funcs: []string{"AskDef", "AskNew", "ActorDef"},
+		Gen:   genC13,
 		Rule: "one serial actor answering *AskDef requests by a per-request policy (reply now / after an inline or asynchronous virtual latency / never) and 1..6 asker threads using AskOnce, AskChannel, " +
 			"AskOnceWithTimeout; latency classes relative to the timeout: far below, 0.25ms below, 0.25ms above, 10x, never; a logging ActorHandle proxy records the virtual instant Send returned; " +
 			"oracles: correlation (value = f(own unique message)), in-time => reply, timeout => zero value + ErrActorAskTimeout after >= timeout, never => timeout, late => timeout (stall-free runs only), " +
